@@ -59,7 +59,7 @@ class Inbound(explore.Scenario):
 
     def driver(self, rt):
         kinds, cuts, role = self.params["kinds"], self.params["cuts"], self.params.get("role", "client")
-        n = node.open_node(rt, role)
+        n = node.open_node(rt, role, transport=self.params.get("transport", "tcp"))
         msgs = build_sequence(kinds)
         stream = b"".join(msgs)
         expect_app = [m for k, m in zip(kinds, msgs) if k not in NOT_FOR_APP]
@@ -109,7 +109,7 @@ class Inbound(explore.Scenario):
         obs = rt.observations
         errs = []
         shape = "+".join(self.params["kinds"])
-        cutsig = self.params.get("cutsig", "cut")
+        cutsig = self.params.get("cutsig", "cut") + (":sctp" if self.params.get("transport") == "sctp" else "")
         if rt.verdict == "handshake-failed":
             return [("C04:handshake-failed", "the node did not reach Open in the deterministic prefix")]
         got, expect = obs.get("got", []), obs.get("expect", [])
@@ -208,6 +208,23 @@ def plan(tier):
             yield P(kinds, [first], role, "msgcut+bad"), 0
             yield P(kinds, [first, first + len(msgs[1])], role, "msgcut+bad"), 0
             yield P(kinds, "bytes", role, "bytewise+bad"), 0
+    # -- the SCTP transport classes (their own _read/_write over a fake pysctp socket on the same virtual network) --
+    def S(params):
+        return dict(params, transport="sctp")
+    for role in ("server", "client"):
+        for kinds in [["req"], ["dwr", "req"], ["req", "ans"]] + ([["req", "req", "req"], ["grp", "req"]] if thorough else []):
+            msgs = build_sequence(kinds)
+            total, first = sum(map(len, msgs)), len(msgs[0])
+            yield S(P(kinds, [], role, "whole")), 0
+            yield S(P(kinds, "bytes", role, "bytewise")), 0
+            for c in (range(1, total) if thorough and role == "server" else structural_cuts(total, first)):
+                yield S(P(kinds, [c], role, "1cut-header" if c < 20 else "1cut")), 0
+            yield S(P(kinds, [], role, "whole+fin", True)), 0
+            yield S(P(kinds, [first - 1], role, "1cut+fin", True)), 0
+    yield S(P(["req", "req"], [20], "server", "1cut")), 1
+    if thorough:
+        yield S(P(["dwr", "req"], [], "client", "whole+fin", True)), 1
+        yield S(P(["req"], [21], "client", "1cut")), 1
     yield P(["req", "bad", "req"], [], "server", "whole+bad"), 1
     yield P(["req", "req"], [], "server", "whole+fin", True), 1
     yield P(["dwr", "req"], [], "client", "whole+fin", True), 1
